@@ -171,3 +171,4 @@ def check(facts, rep, tier, cfg):
     import whomay
     whomay.check(facts, rep, "C12.S7", "C12")
     whomay.check_new_statics(facts, rep, "C12.S7", "C12")
+    whomay.check_new_trait_methods(facts, rep, "C12.S7", "C12")
